@@ -161,8 +161,41 @@ def run(pid, tier, seed, replay=None):
         deaths_all += [dict(x, driver=driver) for x in deaths]
         stats[driver] = {"runs": n, "deaths": len(deaths)}
         results += [dict(r, driver=driver) for r in validate_traces(tm, tc, [tf], pid, jobs=2)]
+    # the event-loop plumbing between MessageReceiver and the writers: a well-behaved reader's acknowledgments must still
+    # reach the local writer when another peer sends ACKNACKs of the hostile catalogue (real DPEventLoop, real Poll)
+    ev_results = []
+    rj = json.load(open(replay)) if replay is not None else None
+    if replay is None or rj.get("driver") == "disc":
+        ed = os.path.join(d, "evloop")
+        if replay is None:
+            n_e = 64 if tier == "quick" else 640
+            vh(["disc", "hostile", "--seed", seed, "--runs", n_e, "--jobs", 4, "--out", ed])
+        else:
+            rp = os.path.join(d, "evloop_replay.jsonl")
+            with open(rp, "w") as f:
+                f.write(json.dumps(rj["spec"]) + "\n")
+            vh(["disc", "replay", "--in", rp, "--jobs", 1, "--out", ed])
+            n_e = 1
+        ev_results = validate_traces("Trace_Discovery.tla", "Trace_Discovery.cfg", sorted(glob.glob(os.path.join(ed, "trace_*.ndjson"))), pid, jobs=4, constants_env={"KNOWN_S8": "0"})
+        stats["evloop"] = {"runs": n_e, "deaths": 0}
     kf = known_findings(pid)
     violations, known_lines, classes_seen, events = [], [], {}, 0
+    for res in ev_results:
+        events += res["events"]
+        for v in res["viols"]:
+            mine = [c for c in v.get("clauses", []) if c.startswith("C06_")]
+            if not mine:
+                continue
+            run_no, lines = cut_run(res["file"], v["line"])
+            cls = next((json.loads(ln).get("cls") for ln in lines if json.loads(ln).get("ev") == "HostileAck"), None)
+            sig = f"evloop:{cls}:{mine[0]}"
+            classes_seen[sig] = classes_seen.get(sig, 0) + 1
+            path = write_replay(pid, f"replay-{len(violations)}.json", {"property": pid, "driver": "disc", "signature": sig, "spec": recover_spec(res["file"], run_no), "trace": lines})
+            violations.append((f"{sig} (run {run_no})", path))
+        if res["stuck_line"] is not None:
+            run_no, lines = cut_run(res["file"], res["stuck_line"])
+            path = write_replay(pid, f"replay-stuck-{len(violations)}.json", {"property": pid, "driver": "disc", "why": "event not explained", "spec": recover_spec(res["file"], run_no), "trace": lines})
+            violations.append((f"evloop: event {res['stuck_line']} not explained: {res.get('stuck_raw','')[:200]}", path))
     for res in results:
         events += res["events"]
         specs = [json.loads(l) for l in open(specfiles[res["driver"]])]
